@@ -169,7 +169,7 @@ class Renderer:
                 attrs.append(self.kw("parameter"))
             else:
                 param_stmt = True
-        dimattr = d.get("dimattr")
+        dimattr = None if d.get("dim_elsewhere") else d.get("dimattr")      # (bounds given by the COMMON statement)
         dim_on_entity = False
         dim_stmt = None
         if dimattr:
@@ -343,7 +343,7 @@ class Renderer:
                         txt += " // "
                     else:
                         txt += " "
-                    txt += ", ".join(self.idn(v) for v in vars_)
+                    txt += ", ".join(self.idn(v) + d.get("dims", {}).get(v, "") for v in vars_)
                 afters.append(Line(txt, d.get("doc"), self.docsty(d.get("doc"))))
             elif kind == "stmt":
                 # a specification statement given as keyword + rest (e.g. OPTIONAL for a dummy procedure)
